@@ -130,6 +130,12 @@ def main(argv=None):
             moved = [(n_, f_) for (n_, f_) in failures if n_ == name and f_.owner in g.new_constructs]
             failures = [(n_, f_) for (n_, f_) in failures if not (n_ == name and f_.owner in g.new_constructs)]
             soft += [(name, f_.owner, 'the function now uses library constructs whose specifications are too weak to carry the proof (%s); failed: %s' % (', '.join(g.new_constructs[f_.owner][:5]), f_.ident()[:100])) for (_, f_) in moved]
+        if g.reshaped:
+            # a failed proof in a function whose statement structure is no longer the pinned one (statements added, a match turned into an if, a loop
+            # reshaped ...) may only mean that hints, normalisation rules or invariants no longer fit: the bounded stand-in decides
+            moved = [(n_, f_) for (n_, f_) in failures if n_ == name and f_.owner in g.reshaped]
+            failures = [(n_, f_) for (n_, f_) in failures if not (n_ == name and f_.owner in g.reshaped)]
+            soft += [(name, f_.owner, 'the function was restructured (its statement skeleton is not the pinned one), so a failed proof is not conclusive; failed: %s' % f_.ident()[:110]) for (_, f_) in moved]
         if g.renamed:
             moved = [(n_, f_) for (n_, f_) in failures if n_ == name and f_.owner in g.renamed]
             failures = [(n_, f_) for (n_, f_) in failures if not (n_ == name and f_.owner in g.renamed)]
